@@ -230,6 +230,11 @@ fn gen_header(rng: &mut Rng) -> Option<Header> {
             h.extend_from_slice(*rng.pick(&GARBAGE[..]));
         }
     }
+    if rng.chance(1, 14) {
+        // crafted tails: a bare CR followed by junk start bytes / another CR / LF-CR order
+        h.extend_from_slice(*rng.pick(&[&b"\r)"[..], b"\r]}", b"\r\r", b"\n\r", b"\r'x", b"x\ry", b"\r)]}'"]));
+        clean = false;
+    }
     let nl = *rng.pick(&["\n", "\n", "\n", "\r\n", "\r\n", "\r\n", "\r", "\r", ""]);
     Some(Header { bytes: h, nl, clean })
 }
@@ -267,7 +272,19 @@ pub fn gen_case(rng: &mut Rng, fx: &Fixtures) -> Case {
         damage_at_rest(&mut body, rng);
     }
     let header = gen_header(rng);
-    let (mut stored, header_len, nl, abs) = match &header {
+    // bytes in front of everything: a UTF-8 BOM (whole, torn, doubled) or whitespace. Both paths
+    // must treat them alike (on the shipped code: a BOM is rejected by both, whitespace is JSON
+    // whitespace when there is no header). The absolute header model does not apply then.
+    let lead: &[u8] = match rng.below(40) {
+        0 | 1 => b"\xef\xbb\xbf",
+        2 => b"\xef\xbb",
+        3 => b"\xef\xbb\xbf\xef\xbb\xbf",
+        4 => b" ",
+        5 => b"\n",
+        6 => b"\xef\xbb\xbf ",
+        _ => b"",
+    };
+    let (mut stored, mut header_len, nl, abs) = match &header {
         None => (Vec::new(), 0usize, "none", Abs::NotApplicable),
         Some(h) => {
             let mut s = h.bytes.clone();
@@ -309,6 +326,13 @@ pub fn gen_case(rng: &mut Rng, fx: &Fixtures) -> Case {
         }
     };
     let mut abs = abs;
+    if !lead.is_empty() {
+        let mut s2 = lead.to_vec();
+        s2.extend_from_slice(&stored);
+        stored = s2;
+        header_len += lead.len();
+        abs = Abs::NotApplicable;
+    }
     let header_only = header.as_ref().map(|h| h.nl.is_empty()).unwrap_or(false) && rng.chance(1, 2);
     if header_only {
         body.clear();
